@@ -58,13 +58,20 @@ KERNELS = [
     K("k_encrypt_blob_flow", "_client.py", "_encrypt_blob", ("custom", _encrypt_blob_flow), [], B, props=("C19", "C01")),
 ]
 
-# whole functions as Prelude/PyAst syntax; tie theorems in coq/Proofs/Flow_e2e.v
+# whole functions as Prelude/PyAst syntax (gen/F_e2e.v); world coq/Flow/World_e2e.v; tie theorems in coq/Proofs/Flow_e2e_<group>.v
 FLOWS = [
+    # ---- group dec (C04, C01): Proofs/Flow_e2e_dec.v
     Flow("k_flow_cek_decrypt", "_crypto.py", "cek_decrypt", props=("C04", "C01")),
-    Flow("k_flow_cek_encrypt", "_crypto.py", "cek_encrypt", props=("C01", "C19")),
-    Flow("k_flow_cek_generate", "_crypto.py", "cek_generate", props=("C19", "C01")),
     Flow("k_flow_content_decrypt", "_crypto.py", "content_decrypt", props=("C04", "C01")),
-    Flow("k_flow_content_encrypt", "_crypto.py", "content_encrypt", props=("C01", "C19")),
     Flow("k_flow_decrypt_blob", "_client.py", "_decrypt_blob", props=("C04", "C01")),
+    # ---- group enc (C01, C19): Proofs/Flow_e2e_enc.v
+    Flow("k_flow_cek_encrypt", "_crypto.py", "cek_encrypt", props=("C01", "C19")),
+    Flow("k_flow_content_encrypt", "_crypto.py", "content_encrypt", props=("C01", "C19")),
+    Flow("k_flow_cek_generate", "_crypto.py", "cek_generate", props=("C01", "C19")),
     Flow("k_flow_encrypt_blob", "_client.py", "_encrypt_blob", props=("C01", "C19")),
+    # ---- group kdf (C01): Proofs/Flow_e2e_kdf.v -- the two KDF wrappers are the `kdf` / `concat_kdf` fields of the Crypto record
+    Flow("k_flow_kdf", "_crypto.py", "kdf", props=("C01",)),
+    Flow("k_flow_kdf_concat", "_crypto.py", "kdf_concat", props=("C01",)),
+    # ---- group gke (C09, C01): Proofs/Flow_e2e_gke.v
+    Flow("k_flow_get_protection_gke_from_cache", "_client.py", "_get_protection_gke_from_cache", props=("C09", "C01")),
 ]
